@@ -42,6 +42,15 @@ def propagate_viability_from_node(node: AttackGraphNode) -> None:
         if child.is_viable != original_value:
             propagate_viability_from_node(child)
 
+def _has_ttc_distribution(node: AttackGraphNode) -> bool:
+    """
+    Return True if the node has a TTC probability distribution, as opposed to
+    no TTC or one of the Enabled/Disabled markers.
+    """
+    if node.ttc and 'name' in node.ttc:
+        return node.ttc['name'] not in ['Enabled', 'Disabled']
+    return False
+
 def propagate_necessity_from_node(node: AttackGraphNode) -> None:
     """
     Arguments:
@@ -53,22 +62,25 @@ def propagate_necessity_from_node(node: AttackGraphNode) -> None:
         node.full_name, node.id, node.is_necessary
     )
 
-    if node.ttc and 'name' in node.ttc:
-        if node.ttc['name'] not in ['Enabled', 'Disabled']:
-            # Do not propagate unnecessary state from nodes that have a TTC
-            # probability distribution associated with them.
-            # TODO: Evaluate this more carefully, how do we want to have TTCs
-            # impact necessity and viability.
-            return
+    if _has_ttc_distribution(node):
+        # Do not propagate unnecessary state from nodes that have a TTC
+        # probability distribution associated with them.
+        # TODO: Evaluate this more carefully, how do we want to have TTCs
+        # impact necessity and viability.
+        return
 
     for child in node.children:
         original_value = child.is_necessary
         if child.type == 'or':
             child.is_necessary = False
         if child.type == 'and':
-            child.is_necessary = False
+            is_necessary = False
             for parent in child.parents:
-                child.is_necessary = child.is_necessary or parent.is_necessary
+                # A parent with a TTC probability distribution does not
+                # transmit its unnecessary state to its children.
+                is_necessary = is_necessary or parent.is_necessary or \
+                    _has_ttc_distribution(parent)
+            child.is_necessary = is_necessary
 
         # TODO: Update TTC for child attack step before if it is not necessary
         # before propagating it further.
